@@ -107,7 +107,11 @@ class _AsyncioProxy:
         if w is not None:
             fr = getattr(aw, 'cr_frame', None)
             if fr is not None and fr.f_locals.get('self') is w.client._reconnect_abort:
-                w.on_backoff_wait(timeout)
+                try:
+                    w.on_backoff_wait(timeout)
+                except BaseException:
+                    aw.close()
+                    raise
         return await asyncio.wait_for(aw, timeout)
 
 
